@@ -15,6 +15,10 @@ import Model.Template
 import Proofs.IntTextJson
 import Proofs.JsonPrint
 import Proofs.RoundTrip
+import Proofs.RowTieMarshal
+import Proofs.RowTieText
+import Proofs.FlowTieExport
+import Proofs.FlowTieImport
 
 namespace Jl.C02
 open Jl Jl.Value
@@ -94,5 +98,28 @@ theorem unique_names_needed (env : Env) (line : Bytes) (t : JVMembers)
     for ANY input bytes (rejected lines included). -/
 theorem reader_delivers_clean_tree (line : Bytes) : RoundTrip.ReaderTree (Json.unmarshal line).1 :=
   RoundTrip.reader_tree_ok line
+
+
+/-! ### Reader and writer are the source's (Proofs/RowTieMarshal, RowTieText, FlowTieExport, FlowTieImport)
+
+The property speaks of lines WRITTEN and READ BACK; the code doing both is read from `row.go`,
+`exporter.go` and `importer.go` on every run. -/
+
+/-- As written today: `row.MarshalJSON` is the model's `marshalVal`, `Exporter.Export` the model's
+    `exportLine` (one `Write`, the separator of `Gen.Sites`), `Importer.GetRow` the model's
+    `getRow`, and `UnmarshalJSON` reads numbers as literals, wants `{`, the members until `}` and
+    then only the end of the input. -/
+theorem reader_and_writer_are_the_source :
+    (∀ (env : Value.Env) (ms : Members),
+      RowTie.marshalRowG Gen.rowFacts.marshal (RowPrint.marshalVal env) ms.toList =
+        some (RowPrint.marshalVal env (.row ms))) ∧
+    (∀ (env : Value.Env) (t : Template.Tmpl) (v : Dyn),
+      FlowTie.exportG Gen.flowTable.exporterExport env t v = some (Template.exportLine env t v)) ∧
+    (∀ (env : Value.Env) (t : Template.Tmpl) (line : Bytes),
+      FlowTie.getRowG Gen.flowTable.getRow Gen.flowTable.createRowEmpty env t line =
+        some (Template.getRow env t line)) ∧
+    Gen.rowFacts.unmarshal = [.newDecoder true, .openDelim 0x7B, .members "parseobject", .onlyEOF] :=
+  ⟨RowTie.marshal_as_modelled, FlowTie.export_is_exportLine, FlowTie.getRow_is_getRow,
+   RowTie.unmarshal_as_modelled.1⟩
 
 end Jl.C02
